@@ -1,4 +1,524 @@
+//! C07 — Fresh blinding: proofs and commitments never reuse or expose randomness.
+//! History monitor: every randomness-derived value produced anywhere in the run (all threads)
+//! goes into one set; the driver merges the sets of several processes.
+
+use crate::api::*;
 use crate::common::*;
-pub fn scenarios(_ctx: &Ctx) -> Vec<Scenario> { vec![] }
-pub fn finish(_ctx: &Ctx) {}
-pub fn emit_process_values(_ctx: &Ctx) {}
+use crate::refimpl::{self as rf};
+use bls12_381_plus::Scalar;
+use ff::Field;
+use rand::RngCore;
+use serde_json::{json, Value};
+use std::collections::HashMap;
+use std::sync::{Barrier, Mutex, OnceLock};
+use zkryptium::utils::verif_hooks::Draw;
+
+static SCALARS: OnceLock<Mutex<HashMap<[u8; 32], String>>> = OnceLock::new();
+static POINTS: OnceLock<Mutex<HashMap<[u8; 48], String>>> = OnceLock::new();
+static RAW: OnceLock<Mutex<Vec<Vec<u8>>>> = OnceLock::new();
+
+fn scalars() -> &'static Mutex<HashMap<[u8; 32], String>> {
+    SCALARS.get_or_init(|| Mutex::new(HashMap::new()))
+}
+fn points() -> &'static Mutex<HashMap<[u8; 48], String>> {
+    POINTS.get_or_init(|| Mutex::new(HashMap::new()))
+}
+fn raw() -> &'static Mutex<Vec<Vec<u8>>> {
+    RAW.get_or_init(|| Mutex::new(Vec::new()))
+}
+
+fn note_scalar(ctx: &Ctx, s: &Scalar, origin: &str) {
+    if *s == Scalar::ZERO {
+        ctx.violation("C07:zero-blinding-scalar", json!({"origin":origin}));
+        return;
+    }
+    let k = s.to_be_bytes();
+    let mut m = scalars().lock().unwrap();
+    if let Some(prev) = m.get(&k) {
+        // the same logical value may be noted twice on purpose (boundary + draw log) under the same origin
+        if prev != origin {
+            let kind = |o: &str| o.split('#').next().unwrap_or("").to_string();
+            ctx.violation(
+                &format!("C07:repeated-scalar/{}~{}", kind(prev), kind(origin)),
+                json!({"value":hex::encode(k),"first":prev,"again":origin}),
+            );
+        }
+    } else {
+        m.insert(k, origin.to_string());
+    }
+    ctx.count("distinct_scalars_tracked", 1);
+}
+
+fn note_point(ctx: &Ctx, p: &[u8], origin: &str) {
+    let k: [u8; 48] = p.try_into().unwrap();
+    let mut m = points().lock().unwrap();
+    if let Some(prev) = m.get(&k) {
+        if prev != origin {
+            let kind = |o: &str| o.split('#').next().unwrap_or("").to_string();
+            ctx.violation(&format!("C07:repeated-point/{}~{}", kind(prev), kind(origin)), json!({"value":hex::encode(k),"first":prev,"again":origin}));
+        }
+    } else {
+        m.insert(k, origin.to_string());
+    }
+    ctx.count("distinct_points_tracked", 1);
+}
+
+struct Replay<'a>(&'a [u8], usize);
+impl<'a> RngCore for Replay<'a> {
+    fn next_u32(&mut self) -> u32 {
+        let mut b = [0u8; 4];
+        self.fill_bytes(&mut b);
+        u32::from_le_bytes(b)
+    }
+    fn next_u64(&mut self) -> u64 {
+        let mut b = [0u8; 8];
+        self.fill_bytes(&mut b);
+        u64::from_le_bytes(b)
+    }
+    fn fill_bytes(&mut self, d: &mut [u8]) {
+        d.copy_from_slice(&self.0[self.1..self.1 + d.len()]);
+        self.1 += d.len();
+    }
+    fn try_fill_bytes(&mut self, d: &mut [u8]) -> Result<(), rand::Error> {
+        self.fill_bytes(d);
+        Ok(())
+    }
+}
+
+/// Scalars the library derived from the logged draws of one call (replays Scalar::random).
+fn draw_scalars(ctx: &Ctx, draws: &[Draw], origin: &str) -> Vec<Scalar> {
+    let mut out = vec![];
+    for (i, d) in draws.iter().enumerate() {
+        if d.bytes.iter().all(|&b| b == 0) {
+            ctx.violation("C07:all-zero-draw", json!({"origin":origin,"site":d.site}));
+        }
+        raw().lock().unwrap().push(d.bytes.clone());
+        if d.site == "get_random" && d.bytes.len() == 64 {
+            let s = Scalar::random(Replay(&d.bytes, 0));
+            note_scalar(ctx, &s, &format!("draw#{}#{}", origin, i));
+            out.push(s);
+        }
+    }
+    out
+}
+
+fn window_scan(ctx: &Ctx, what: &str, enc: &[u8], secrets32: &[(&str, [u8; 32])], secrets48: &[(&str, [u8; 48])]) {
+    for (nm, s) in secrets32 {
+        if enc.windows(32).any(|w| w == s) {
+            ctx.violation(&format!("C07:secret-in-encoding/{}/{}", what, nm), json!({"encoding":hx_full(enc)}));
+        }
+    }
+    for (nm, s) in secrets48 {
+        if enc.windows(48).any(|w| w == s) {
+            ctx.violation(&format!("C07:secret-in-encoding/{}/{}", what, nm), json!({"encoding":hx_full(enc)}));
+        }
+    }
+}
+
+struct Transcript {
+    c: Scalar,
+    e_cap: Scalar,
+    m_cap: Vec<Scalar>,
+}
+
+/// One proof generation on fixed inputs; returns the transcript. `hidden` = scalars of the hidden
+/// positions in order (for blind proofs this includes the blind-factor slot).
+fn observe_proof<X: Sx>(
+    ctx: &Ctx,
+    origin: &str,
+    proof: &Pok<X>,
+    draws: &[Draw],
+    e: &Scalar,
+    a48: &[u8; 48],
+    hidden: &[Scalar],
+    extra_secret: Option<[u8; 32]>,
+) -> Option<Transcript> {
+    let pb = proof.to_bytes();
+    let Some(p) = rf::octets_to_proof(&pb) else {
+        ctx.violation("C07:honest-proof-not-decodable-by-reference", json!({"proof":hx_full(&pb)}));
+        return None;
+    };
+    let u = hidden.len();
+    if draws.len() != 5 + u {
+        ctx.violation("C07:unexpected-rng-draw-count/proof", json!({"draws":draws.len(),"expected":5+u,"origin":origin}));
+    }
+    let ds = draw_scalars(ctx, draws, origin);
+    // witness-side recomputation of the blinding scalars
+    // (when the draw log explains them they are already tracked as draws; otherwise track them here)
+    let explained = ds.len() == 5 + u;
+    let e_t = p.e_cap - e * p.c;
+    if !explained {
+        note_scalar(ctx, &e_t, &format!("e~#{}", origin));
+    }
+    let mut tildes = vec![e_t];
+    for (j, mj) in hidden.iter().enumerate() {
+        let mt = p.m_cap[j] - mj * p.c;
+        if !explained {
+            note_scalar(ctx, &mt, &format!("m~#{}#{}", origin, j));
+        }
+        tildes.push(mt);
+    }
+    // the boundary-recomputed values must be draws of this very call (ties the log to the output)
+    if ds.len() == 5 + u {
+        if ds[2] != e_t || (0..u).any(|j| ds[5 + j] != tildes[1 + j]) {
+            ctx.violation("C07:draw-log-does-not-explain-output", json!({"origin":origin}));
+        }
+        // r1, r2, r1~, r3~ are only visible in the log: non-zero and distinct is checked by note_scalar
+        ctx.count("proofs_with_all_5+U_draws_observed", 1);
+    }
+    note_point(ctx, &pb[0..48], &format!("Abar#{}", origin));
+    note_point(ctx, &pb[48..96], &format!("Bbar#{}", origin));
+    note_point(ctx, &pb[96..144], &format!("D#{}", origin));
+    // encodings never contain hidden scalars, e or A
+    let mut s32: Vec<(&str, [u8; 32])> = vec![("e", e.to_be_bytes())];
+    for h in hidden {
+        s32.push(("hidden-message-scalar", h.to_be_bytes()));
+    }
+    if let Some(x) = extra_secret {
+        s32.push(("blind-factor", x));
+    }
+    window_scan(ctx, "proof", &pb, &s32, &[("A", *a48)]);
+    let js = serde_json::to_string(proof).unwrap();
+    for (nm, s) in &s32 {
+        if js.contains(&hex::encode(s)) {
+            ctx.violation(&format!("C07:secret-in-encoding/proof-json/{}", nm), json!({"json":js}));
+        }
+    }
+    if js.contains(&hex::encode(a48)) {
+        ctx.violation("C07:secret-in-encoding/proof-json/A", json!({"json":js}));
+    }
+    Some(Transcript { c: p.c, e_cap: p.e_cap, m_cap: p.m_cap })
+}
+
+/// The attacker's two-transcript extraction on every pair.
+fn extraction(ctx: &Ctx, origin: &str, ts: &[Transcript], e: &Scalar, hidden: &[Scalar]) {
+    for a in 0..ts.len() {
+        for b in a + 1..ts.len() {
+            let dc = ts[a].c - ts[b].c;
+            let Some(inv) = Option::<Scalar>::from(dc.invert()) else {
+                ctx.violation("C07:repeated-challenge", json!({"origin":origin,"a":a,"b":b}));
+                continue;
+            };
+            if (ts[a].e_cap - ts[b].e_cap) * inv == *e {
+                ctx.violation("C07:two-transcript-extraction/e", json!({"origin":origin,"a":a,"b":b}));
+            }
+            for (j, h) in hidden.iter().enumerate() {
+                if (ts[a].m_cap[j] - ts[b].m_cap[j]) * inv == *h {
+                    ctx.violation("C07:two-transcript-extraction/hidden-message", json!({"origin":origin,"a":a,"b":b,"j":j}));
+                }
+            }
+            ctx.count("transcript_pairs_attacked", 1);
+        }
+    }
+}
+
+fn repeat_proof<X: Sx>(ctx: &Ctx, idx: u64, l: usize, d: Vec<usize>, n: usize, threads: usize) {
+    let mut r = ctx.rng("c07p", idx);
+    let (sk, pk) = keypair::<X>(&mut r);
+    let msgs = gen_messages(&mut r, l, 0);
+    let sig = Sig::<X>::sign(Some(&msgs), &sk, &pk, Some(b"h")).unwrap().to_bytes();
+    let (a48, e) = (<[u8; 48]>::try_from(&sig[..48]).unwrap(), rf::octets_to_scalar(&sig[48..]).unwrap());
+    let ms = rf::messages_to_scalars(X::ID, &msgs, &X::ID.api_id()).unwrap();
+    let hidden: Vec<Scalar> = (0..l).filter(|i| !d.contains(i)).map(|i| ms[i]).collect();
+    let origin = format!("proof/{}/L{}/D{:?}/s{}", name::<X>(), l, d, idx);
+    ctx.distinct(&origin);
+    let all: Mutex<Vec<Transcript>> = Mutex::new(vec![]);
+    let barrier = Barrier::new(threads);
+    let scn = current_scenario();
+    std::thread::scope(|sc| {
+        let scn = &scn;
+        for t in 0..threads {
+            let (all, barrier, origin, pk, msgs, d, hidden, sig) = (&all, &barrier, &origin, &pk, &msgs, &d, &hidden, &sig);
+            sc.spawn(move || {
+                set_scenario(scn);
+                barrier.wait();
+                for k in 0..n {
+                    let o = format!("{}/t{}/k{}", origin, t, k);
+                    ctx.distinct(&o);
+                    let g = ctx.call("proof_gen", origin, None, || Pok::<X>::proof_gen(pk, sig, Some(b"h"), Some(b"ph"), Some(msgs), Some(d)));
+                    if let Some(p) = g.value {
+                        if let Some(tr) = observe_proof::<X>(ctx, &o, &p, &g.draws, &e, &a48, hidden, None) {
+                            all.lock().unwrap().push(tr);
+                        }
+                    } else {
+                        ctx.inconclusive("C07: proof_gen failed (C03's business)");
+                    }
+                }
+            });
+        }
+    });
+    let ts = all.into_inner().unwrap();
+    extraction(ctx, &origin, &ts, &e, &hidden);
+    ctx.sample(json!({"kind":"repeat_proof","suite":name::<X>(),"L":l,"disclosed":d,"threads":threads,"generations":ts.len(),"pairs_attacked":ts.len()*(ts.len().saturating_sub(1))/2}));
+}
+
+fn repeat_commit<X: Sx>(ctx: &Ctx, idx: u64, m: usize, n: usize, threads: usize) {
+    let mut r = ctx.rng("c07c", idx);
+    let cm = gen_messages(&mut r, m, 0);
+    let cms = rf::messages_to_scalars(X::ID, &cm, &X::ID.blind_api_id()).unwrap();
+    let origin = format!("commit/{}/M{}/s{}", name::<X>(), m, idx);
+    ctx.distinct(&origin);
+    let all: Mutex<Vec<(Scalar, Scalar, Vec<Scalar>, Scalar)>> = Mutex::new(vec![]);
+    let barrier = Barrier::new(threads);
+    let scn = current_scenario();
+    std::thread::scope(|sc| {
+        let scn = &scn;
+        for t in 0..threads {
+            let (all, barrier, origin, cm, cms) = (&all, &barrier, &origin, &cm, &cms);
+            sc.spawn(move || {
+                set_scenario(scn);
+                barrier.wait();
+                for k in 0..n {
+                    let o = format!("{}/t{}/k{}", origin, t, k);
+                    ctx.distinct(&o);
+                    let g = ctx.call("commit", origin, None, || Com::<X>::commit(Some(cm)));
+                    let Some((com, bf)) = g.value else {
+                        ctx.inconclusive("C07: commit failed (C05's business)");
+                        continue;
+                    };
+                    if g.draws.len() != m + 2 {
+                        ctx.violation("C07:unexpected-rng-draw-count/commit", json!({"draws":g.draws.len(),"expected":m+2}));
+                    }
+                    let ds = draw_scalars(ctx, &g.draws, &o);
+                    let b = com.to_bytes();
+                    let blind = rf::octets_to_scalar(&bf.to_bytes()).unwrap();
+                    let explained = ds.len() == m + 2;
+                    if !explained {
+                        note_scalar(ctx, &blind, &format!("blind#{}", o));
+                    }
+                    note_point(ctx, &b[..48], &format!("C#{}", o));
+                    let sc_: Vec<Scalar> = b[48..].chunks(32).map(|c| rf::octets_to_scalar(c).unwrap()).collect();
+                    let c = *sc_.last().unwrap();
+                    let s_t = sc_[0] - blind * c;
+                    if !explained {
+                        note_scalar(ctx, &s_t, &format!("s~#{}", o));
+                    }
+                    let mut mts = vec![];
+                    for j in 0..m {
+                        let mt = sc_[1 + j] - cms[j] * c;
+                        if !explained {
+                            note_scalar(ctx, &mt, &format!("cm~#{}#{}", o, j));
+                        }
+                        mts.push(mt);
+                    }
+                    if ds.len() == m + 2 && (ds[0] != blind || ds[1] != s_t || (0..m).any(|j| ds[2 + j] != mts[j])) {
+                        ctx.violation("C07:draw-log-does-not-explain-output", json!({"origin":o}));
+                    }
+                    let mut s32: Vec<(&str, [u8; 32])> = vec![("blind-factor", blind.to_be_bytes())];
+                    for h in cms {
+                        s32.push(("committed-message-scalar", h.to_be_bytes()));
+                    }
+                    window_scan(ctx, "commitment", &b, &s32, &[]);
+                    all.lock().unwrap().push((sc_[0], c, sc_[1..1 + m].to_vec(), blind));
+                }
+            });
+        }
+    });
+    // two-transcript extraction is only meaningful for equal secrets; blind differs per run, the
+    // committed messages are equal in all runs
+    let ts = all.into_inner().unwrap();
+    for a in 0..ts.len() {
+        for b in a + 1..ts.len() {
+            let Some(inv) = Option::<Scalar>::from((ts[a].1 - ts[b].1).invert()) else {
+                ctx.violation("C07:repeated-challenge", json!({"origin":origin}));
+                continue;
+            };
+            for j in 0..m {
+                if (ts[a].2[j] - ts[b].2[j]) * inv == cms[j] {
+                    ctx.violation("C07:two-transcript-extraction/committed-message", json!({"origin":origin,"a":a,"b":b,"j":j}));
+                }
+            }
+            ctx.count("transcript_pairs_attacked", 1);
+        }
+    }
+    ctx.sample(json!({"kind":"repeat_commit","suite":name::<X>(),"M":m,"threads":threads,"generations":ts.len()}));
+}
+
+fn repeat_blind_proof<X: Sx>(ctx: &Ctx, idx: u64, l: usize, m: usize, n: usize) {
+    let mut r = ctx.rng("c07b", idx);
+    let (sk, pk) = keypair::<X>(&mut r);
+    let msgs = gen_messages(&mut r, l, 0);
+    let cm = gen_messages(&mut r, m, 0);
+    let (com, bf) = Com::<X>::commit(Some(&cm)).unwrap();
+    let sig = BSig::<X>::blind_sign(&sk, &pk, Some(&com.to_bytes()), None, Some(&msgs)).unwrap().to_bytes();
+    let (a48, e) = (<[u8; 48]>::try_from(&sig[..48]).unwrap(), rf::octets_to_scalar(&sig[48..]).unwrap());
+    let api = X::ID.blind_api_id();
+    let blind = rf::octets_to_scalar(&bf.to_bytes()).unwrap();
+    let mut hidden = rf::messages_to_scalars(X::ID, &msgs, &api).unwrap();
+    hidden.push(blind);
+    hidden.extend(rf::messages_to_scalars(X::ID, &cm, &api).unwrap());
+    let origin = format!("blind-proof/{}/L{}/M{}/s{}", name::<X>(), l, m, idx);
+    ctx.distinct(&origin);
+    let mut ts = vec![];
+    for k in 0..n {
+        let o = format!("{}/k{}", origin, k);
+        ctx.distinct(&o);
+        let g = ctx.call("blind_proof_gen", &origin, None, || Pok::<X>::blind_proof_gen(&pk, &sig, None, Some(b"ph"), Some(&msgs), Some(&cm), None, None, Some(&bf)));
+        if let Some(p) = g.value {
+            if let Some(t) = observe_proof::<X>(ctx, &o, &p, &g.draws, &e, &a48, &hidden, Some(blind.to_be_bytes())) {
+                ts.push(t);
+            }
+        } else {
+            ctx.inconclusive("C07: blind_proof_gen failed (C05's business)");
+        }
+    }
+    extraction(ctx, &origin, &ts, &e, &hidden);
+}
+
+fn random_material<X: Sx>(ctx: &Ctx, idx: u64, n: usize) {
+    let origin = format!("random/{}/s{}", name::<X>(), idx);
+    ctx.distinct(&origin);
+    for k in 0..n {
+        let o = format!("{}/k{}", origin, k);
+        ctx.distinct(&o);
+        let g = ctx.call("KeyPair::random", &origin, None, || Kp::<X>::random());
+        if let Some(kp) = g.value {
+            if g.draws.len() != 1 || g.draws[0].bytes.len() != 64 {
+                ctx.violation("C07:unexpected-rng-draw-count/keypair", json!({"draws":g.draws.len()}));
+            }
+            draw_scalars(ctx, &g.draws, &o);
+            // 64 bytes of key material: both halves must look drawn (catches partially filled buffers)
+            if let Some(d) = g.draws.first() {
+                for (h, half) in d.bytes.chunks(8).enumerate() {
+                    if half.iter().all(|&b| b == 0) {
+                        ctx.violation("C07:key-material-partially-zero", json!({"chunk":h,"ikm":hx_full(&d.bytes)}));
+                    }
+                }
+                let mut k32 = [0u8; 32];
+                k32.copy_from_slice(&d.bytes[..32]);
+                note_scalar(ctx, &rf::os2ip_mod_r(&d.bytes[..32]), &format!("ikm-lo#{}", o));
+                note_scalar(ctx, &rf::os2ip_mod_r(&d.bytes[32..]), &format!("ikm-hi#{}", o));
+            }
+            let sk = rf::octets_to_scalar(&kp.private_key().to_bytes()).unwrap();
+            note_scalar(ctx, &sk, &format!("sk#{}", o));
+        } else {
+            ctx.violation("C07:KeyPair::random-failed", json!({"outcome":g.outcome.short()}));
+        }
+        let g = ctx.call("BlindFactor::random", &origin, None, || Ok::<_, ()>(BlindFactor::random()));
+        if let Some(bf) = g.value {
+            if g.draws.len() != 1 {
+                ctx.violation("C07:unexpected-rng-draw-count/blindfactor", json!({"draws":g.draws.len()}));
+            }
+            let ds = draw_scalars(ctx, &g.draws, &o);
+            let b = rf::octets_to_scalar(&bf.to_bytes()).unwrap();
+            if ds.len() != 1 {
+                note_scalar(ctx, &b, &format!("blindfactor#{}", o));
+            }
+            if ds.len() == 1 && ds[0] != b {
+                ctx.violation("C07:draw-log-does-not-explain-output", json!({"origin":o}));
+            }
+        }
+        let g = ctx.call("generate_random_secret", &origin, None, || Ok::<_, ()>(zkryptium::utils::util::bbsplus_utils::generate_random_secret(32)));
+        if let Some(s) = g.value {
+            note_scalar(ctx, &rf::os2ip_mod_r(&s), &format!("secret#{}", o));
+            draw_scalars(ctx, &g.draws, &o);
+        }
+    }
+}
+
+pub fn scenarios(ctx: &Ctx) -> Vec<Scenario> {
+    let mut v = Vec::new();
+    let n = ctx.t(96usize, 400usize);
+    let mut idx = 0u64;
+    macro_rules! both {
+        ($name:expr, |$c:ident, $i:ident| $sha:expr, $shake:expr) => {{
+            let $i = idx;
+            idx += 1;
+            v.push(scenario(format!("sha/{}", $name), move |$c| $sha));
+            v.push(scenario(format!("shake/{}", $name), move |$c| $shake));
+        }};
+    }
+    // (a) same inputs, one thread
+    for (l, d) in [(0usize, vec![]), (1, vec![]), (3, vec![1]), (5, vec![]), (5, vec![0, 1, 2, 3, 4])] {
+        let (d1, d2) = (d.clone(), d.clone());
+        both!(format!("proof/L{l}/1thread"), |c, i| repeat_proof::<Sha>(c, i, l, d1, n, 1), repeat_proof::<Shake>(c, i, l, d2, n, 1));
+    }
+    // (b) same inputs on 16 threads released by a barrier
+    for (l, d) in [(2usize, vec![0usize]), (4, vec![])] {
+        let (d1, d2) = (d.clone(), d.clone());
+        let k = ctx.t(6, 24);
+        both!(format!("proof/L{l}/16threads"), |c, i| repeat_proof::<Sha>(c, i, l, d1, k, 16), repeat_proof::<Shake>(c, i, l, d2, k, 16));
+    }
+    for m in [0usize, 1, 3] {
+        both!(format!("commit/M{m}"), |c, i| repeat_commit::<Sha>(c, i, m, n, 1), repeat_commit::<Shake>(c, i, m, n, 1));
+    }
+    {
+        let k = ctx.t(6, 24);
+        both!("commit/M2/16threads", |c, i| repeat_commit::<Sha>(c, i, 2, k, 16), repeat_commit::<Shake>(c, i, 2, k, 16));
+    }
+    for (l, m) in [(0usize, 0usize), (2, 2), (1, 3)] {
+        both!(format!("blind-proof/L{l}/M{m}"), |c, i| repeat_blind_proof::<Sha>(c, i, l, m, n), repeat_blind_proof::<Shake>(c, i, l, m, n));
+    }
+    // (d) mixed inputs
+    for rep in 0..ctx.t(4u64, 16u64) {
+        let l = (rep % 5) as usize;
+        let d: Vec<usize> = (0..l).filter(|i| (rep >> i) & 1 == 1).collect();
+        let (d1, d2) = (d.clone(), d);
+        both!(format!("mixed/{rep}"), |c, i| repeat_proof::<Sha>(c, i + 1000, l, d1, 4, 1), repeat_proof::<Shake>(c, i + 1000, l, d2, 4, 1));
+    }
+    for rep in 0..ctx.t(2, 8) {
+        both!(format!("random/{rep}"), |c, i| random_material::<Sha>(c, i, 64), random_material::<Shake>(c, i, 64));
+    }
+    v
+}
+
+/// End-of-history checks: coarse bias screen over the raw draws.
+pub fn finish(ctx: &Ctx) {
+    let raws = raw().lock().unwrap();
+    let n = raws.len();
+    ctx.set_extra("raw_draws_in_history", json!(n));
+    ctx.set_extra("distinct_scalars_in_history", json!(scalars().lock().unwrap().len()));
+    ctx.set_extra("distinct_points_in_history", json!(points().lock().unwrap().len()));
+    let d64: Vec<&Vec<u8>> = raws.iter().filter(|d| d.len() == 64).collect();
+    if d64.len() >= 4096 {
+        // per-bit frequency within 7 sigma (false alarm < 512 * 2.6e-12)
+        let nn = d64.len() as f64;
+        let sigma = (nn * 0.25).sqrt();
+        let mut worst = 0.0f64;
+        for bit in 0..512 {
+            let ones = d64.iter().filter(|d| d[bit / 8] >> (bit % 8) & 1 == 1).count() as f64;
+            let dev = (ones - nn / 2.0).abs() / sigma;
+            worst = worst.max(dev);
+            if dev > 7.0 {
+                ctx.violation("C07:biased-randomness-bit", json!({"bit":bit,"ones":ones,"n":nn,"sigmas":dev}));
+            }
+        }
+        ctx.set_extra("bias_screen", json!({"draws":d64.len(),"bits":512,"worst_deviation_sigmas":worst,"threshold_sigmas":7.0}));
+    } else {
+        ctx.set_extra("bias_screen", json!({"skipped":"fewer than 4096 64-byte draws","draws":d64.len()}));
+    }
+    // high 64 bits of the draws must not be constant / tiny (counter-like generators)
+    if !d64.is_empty() {
+        let small = d64.iter().filter(|d| d[8..].iter().all(|&b| b == 0)).count();
+        if small > 0 {
+            ctx.violation("C07:counter-like-draws", json!({"draws_with_only_low_8_bytes_set":small}));
+        }
+    }
+}
+
+/// Sub-process mode (`C07 --emit`): a fixed small workload; prints every randomness-derived value.
+pub fn emit_process_values(_ctx: &Ctx) {
+    use zkryptium::utils::verif_hooks as hooks;
+    let mut out: Vec<Value> = vec![];
+    hooks::record_draws(true);
+    let (sk, pk) = key_from_scalar(Scalar::from(424242u64));
+    let msgs = vec![b"m0".to_vec(), b"m1".to_vec()];
+    let sig = Sig::<Sha>::sign(Some(&msgs), &sk, &pk, None).unwrap().to_bytes();
+    for k in 0..4 {
+        let p = Pok::<Sha>::proof_gen(&pk, &sig, None, None, Some(&msgs), Some(&[0])).unwrap().to_bytes();
+        out.push(json!({"kind":format!("proof{k}.Abar"),"v":hex::encode(&p[..48])}));
+        out.push(json!({"kind":format!("proof{k}.Bbar"),"v":hex::encode(&p[48..96])}));
+        out.push(json!({"kind":format!("proof{k}.D"),"v":hex::encode(&p[96..144])}));
+        let (c, bf) = Com::<Shake>::commit(Some(&msgs)).unwrap();
+        out.push(json!({"kind":format!("commit{k}.C"),"v":hex::encode(&c.to_bytes()[..48])}));
+        out.push(json!({"kind":format!("commit{k}.blind"),"v":hex::encode(bf.to_bytes())}));
+        let kp = Kp::<Sha>::random().unwrap();
+        out.push(json!({"kind":format!("random{k}.sk"),"v":hex::encode(kp.private_key().to_bytes())}));
+        out.push(json!({"kind":format!("blindfactor{k}"),"v":hex::encode(BlindFactor::random().to_bytes())}));
+    }
+    hooks::record_draws(false);
+    for (i, d) in hooks::take_draws().iter().enumerate() {
+        out.push(json!({"kind":format!("draw{}@{}", i, d.site),"v":hex::encode(&d.bytes)}));
+    }
+    println!("{}", serde_json::to_string(&out).unwrap());
+}
